@@ -26,8 +26,9 @@ import time
 import traceback
 
 VERIF = os.path.dirname(os.path.dirname(os.path.abspath(__file__)))
-REPO = "/repo"
-REPO_SRC = "/repo/src"
+# VERIF_REPO is a development aid (run the same checks against a scratch worktree); registered commands never set it.
+REPO = os.environ.get("VERIF_REPO") or "/repo"
+REPO_SRC = REPO + "/src"
 MASK = 0xFFFFFFFFFFFFFFFF
 NPROC = int(os.environ.get("VERIF_JOBS", "0")) or min(16, os.cpu_count() or 1)
 UNIT_STALL_S = 1500
